@@ -228,8 +228,9 @@ theorem cBlock_eq (b : BlockCfg) (os : List Out) (hne : os ≠ []) (hos : ∀ o 
   have hcmt : Plain ("//  ".toList ++ b.nsScope ++ b.cfg.ename) := by
     refine ⟨⟨'/', "/  ".toList ++ b.nsScope ++ b.cfg.ename, by simp, by decide⟩, ?_⟩
     rw [getLast?_append_ne hen.1]; exact word_last hen
+  have hemp : os.isEmpty = false := by cases os <;> simp_all
   unfold cBlock cItems
-  simp only [List.cons_append, List.nil_append]
+  simp only [hemp, Bool.false_eq_true, if_false, List.cons_append, List.nil_append]
   rw [stripLastChar_cons (by simp), stripLastChar_cons (by simp), stripLastChar_cons hm, strip_items os hne]
   simp only [List.cons_append]
   rw [renderItems]
